@@ -80,6 +80,17 @@ class Ctx(object):
             self.inlined |= ex.inlined
         return obs
 
+    def part(self, fn, label=None):
+        """one group of property-level obligations (lemmas, literal tables, census ...): a crash of its generator on a
+        changed tree is not a verdict about the code and must not take the other groups down with it -> DEGRADED"""
+        try:
+            return list(fn(self))
+        except Exception:
+            self.fun_info.append(dict(function="%s::%s" % (self.prop, label or getattr(fn, "__name__", "obligations")),
+                                      unreached="generator of this group of obligations failed on this tree: " +
+                                      traceback.format_exc(limit=-3).strip().replace("\n", " | ")[-600:], crash=True))
+            return []
+
     def cleanup(self):
         shutil.rmtree(self.workdir, ignore_errors=True)
 
